@@ -12,7 +12,7 @@ import tempfile
 import time
 import traceback
 
-from .util import mix64, cjson
+from .util import mix64, cjson  # noqa
 
 VERIF_DIR = os.path.dirname(os.path.dirname(os.path.abspath(__file__)))
 DEFAULT_SEED = {"quick": 20261004, "thorough": 20261004}
@@ -79,6 +79,14 @@ def point_atsim_at_repo():
             mp["atsim"] = want
     import warnings
     warnings.simplefilter("ignore")
+    # dependencies first (they keep the real datetime classes), then virtual time, then the repository
+    import zipfile  # noqa
+    import openpyxl  # noqa
+    import openpyxl.writer.excel  # noqa
+    import openpyxl.packaging.core  # noqa
+    import scipy.interpolate  # noqa
+    from .seams import install_global_clock
+    install_global_clock()
     import atsim.potentials  # noqa
     got = os.path.dirname(os.path.dirname(os.path.abspath(atsim.potentials.__file__)))
     if got != want:
